@@ -265,6 +265,9 @@ func (e *Env) tight() bool {
 	return a < uint(e.Cfg.BufferPages+12)
 }
 
+// Tight exports tight (concurrent scenarios).
+func (e *Env) Tight() bool { return e.tight() }
+
 // Flushed returns the number of events the queue has reported as flushed
 // (callbacks, across reopen).
 func (e *Env) Flushed() int { return e.BaseFlushed + int(e.CBFlushed) }
